@@ -628,6 +628,24 @@ def _pool_of(cluster, machine):
     return "nowhere"
 
 
+class _NoReleaseCluster:
+    """what an algorithm sees when it leaves the clean-up of its reservation
+    to the Scheduler (as the Cluster documentation says it may): the real
+    cluster, except that release_batch_resources does nothing"""
+
+    def __init__(self, cluster):
+        object.__setattr__(self, "_c", cluster)
+
+    def __getattr__(self, name):
+        return getattr(self._c, name)
+
+    def __len__(self):
+        return len(self._c)
+
+    def release_batch_resources(self, observation, c='default'):
+        return None
+
+
 class Adversary(Scheduling):
     """User scheduling algorithm = an honest shipped algorithm whose returned
     schedule is perturbed, at explorer-chosen calls, by ONE proposal from a
@@ -642,6 +660,7 @@ class Adversary(Scheduling):
         self.used = 0
         self.api = api            # may also call the documented cluster API
         self.api_used = 0
+        self.norelease = (api == "norelease")
         self.name = "Adversary(%r)" % (inner,)
         self.injected = []
 
@@ -712,7 +731,8 @@ class Adversary(Scheduling):
                          "label": "api:provision-%d" % min(k, free),
                          "plan": workflow_plan.id})
         allocs, status, task_pool = self.inner.run(
-            cluster, clock, workflow_plan, existing_schedule, task_pool)
+            _NoReleaseCluster(cluster) if self.norelease else cluster,
+            clock, workflow_plan, existing_schedule, task_pool)
         if self.used < self.budget:
             menu = self._menu(cluster, workflow_plan, allocs)
             if menu:
